@@ -137,8 +137,24 @@ def trace_encode(fx, version, level, boosted, mask_in=None, eci=False, sa_info=N
             BufModel.__init__(self, 0)
             bufs.append(self)
 
+    from .. import src as _src
+
     def stage(name, result=None, grow=0):
+        try:
+            pnames = _src.all_params(fx.fn('encoder', name))
+        except Exception:
+            pnames = []
+
         def f(*a, **k):
+            # keyword arguments are put where the stage's own signature has them: what matters is which value reaches which
+            # parameter, not how the call is spelt
+            a, k = list(a), dict(k)
+            for p_ in pnames[len(a):]:
+                if p_ in k:
+                    a.append(k.pop(p_))
+                else:
+                    break
+            a = tuple(a)
             buf = next((x for x in a if isinstance(x, B)), None)
             rec.append((name, a, k, len(buf) if buf is not None else None))
             if buf is not None and grow:
@@ -161,5 +177,8 @@ def trace_encode(fx, version, level, boosted, mask_in=None, eci=False, sa_info=N
         add_format_info=stage('add_format_info'), add_version_info=stage('add_version_info'),
         Code=stage('Code', lambda *a, **k: ('CODE',) + a))
     segs = segments if segments is not None else SegmentsModel([SegModel(md['byte'], 'iso-8859-1') for _ in range(nsegs)])
-    res = FuncVal(fx.fn('encoder', '_encode'), genv, it)(segs, None if level is None else lv[level], version, mask_in, eci, boost_error, sa_info)
+    have = _src.all_params(fx.fn('encoder', '_encode'))
+    if have != ['segments', 'error', 'version', 'mask', 'eci', 'boost_error', 'sa_info']:
+        raise Unknown(f'_encode has another interface than the rules drive it through: {have}')
+    res = FuncVal(fx.fn('encoder', '_encode'), genv, it).call_in_order(segs, None if level is None else lv[level], version, mask_in, eci, boost_error, sa_info)
     return rec, res, dict(buffers=bufs, segments=segs, M0=M0, M1=M1, genv=genv, interp=it)
